@@ -39,6 +39,20 @@ def main(argv):
             json.dump(res, f)
         os._exit(0)
     ctx.emergency = emergency
+
+    # soft wall-clock deadline shortly before the hard watchdog: what the monitors recorded so far is reported
+    # (violations stay violations; without any the shard counts as crashed = inconclusive), instead of being lost
+    import signal
+
+    def soft_deadline(signum, frame):
+        res = ctx.result()
+        res["lines"] = {}
+        res["crashed"] = "soft wall-clock deadline of the shard reached; partial results"
+        with open(out, "w") as f:
+            json.dump(res, f)
+        os._exit(0)
+    signal.signal(signal.SIGALRM, soft_deadline)
+    signal.alarm(max(30, int(plan.get("timeout", 600) * 0.85)))
     try:
         with common.Quiet():
             mod.run_shard(ctx)
